@@ -214,6 +214,11 @@ def gen_journal(rng, memo=False):
                 q = F(0)
             elif z < 0.07:
                 q = -q
+            prev = [x for x in elems if x[0] == 'P' and x[2] == a and x[5] == b]
+            if prev and rng.random() < 0.1:      # the same quote again (same day or not)
+                q, dec = prev[-1][3], prev[-1][4]
+                if rng.random() < 0.6:
+                    day = prev[-1][1] // 86400
             e = ('P', day * 86400 + tod, a, q, dec, b)
             if tod == 0 and rng.random() < 0.2:
                 j.explicit_time.add(e)
@@ -545,11 +550,18 @@ def judge(qr, ci):
             for f in facts:
                 if f[1] != f[3]:
                     last[(f[0], frozenset((f[1], f[3])))] = f
-            want = sorted('%d %s %d/%d %s' % (f[0], f[1].encode().hex(), f[2].numerator, f[2].denominator, f[3].encode().hex())
-                          for f in last.values() if f[0] <= D)
-            if sorted(ci) != want:
-                missing = [r for r in want if r not in ci]
-                extra = [r for r in ci if r not in want]
+            # (the report shows one row per day and price: rows are compared by day)
+            def day_rows(rows):
+                out = set()
+                for r in rows:
+                    w, rest = r.split(' ', 1)
+                    out.add('%d %s' % (int(w) // 86400, rest))
+                return out
+            want = ['%d %s %d/%d %s' % (f[0], f[1].encode().hex(), f[2].numerator, f[2].denominator, f[3].encode().hex())
+                    for f in last.values() if f[0] <= D]
+            if day_rows(ci) != day_rows(want):
+                missing = sorted(day_rows(want) - day_rows(ci))
+                extra = sorted(day_rows(ci) - day_rows(want))
                 bad.append(('prices:missing' if missing else 'prices:superseded-listed',
                             'the %s listing as of %s does not show exactly the recorded prices not after that date' % (qr.kind, dstr(qr.day)),
                             str(extra or ci)[:400], str(missing or want)[:400]))
